@@ -12,7 +12,7 @@ git apply --check "$OUT/patch.diff" || { res "patch does not apply"; exit 1; }
 git apply --check "$OUT/demo.diff" || { res "demo does not apply"; exit 1; }
 # 1. demo alone passes
 git apply "$OUT/demo.diff"
-DEMO=$(python3 -c "import json;print(json.load(open('$OUT/meta.json'))['demo_cmd'])" | sed -E "s#cd (/tmp/seed_[A-Za-z0-9_]+|WORKTREE) *&& *##; s#CARGO_TARGET_DIR=WORKTREE/target ##; s#CARGO_TARGET_DIR=[^ ]+ ##")
+DEMO=$(python3 -c "import json;print(json.load(open('$OUT/meta.json'))['demo_cmd'])" | sed -E "s#cd (/tmp/[A-Za-z0-9_]+|WORKTREE) *&& *##; s#CARGO_TARGET_DIR=WORKTREE/target ##; s#CARGO_TARGET_DIR=[^ ]+ ##")
 echo "demo cmd: $DEMO"
 ( eval "$DEMO" ) > /tmp/vseed_demo_clean.log 2>&1; RC_CLEAN=$?
 # 2. patch + demo fails
